@@ -485,18 +485,21 @@ class set:
 
         path = path + (key,)
 
+        # The undo entries are recorded only after the assignment succeeded, so
+        # that a failing assignment leaves nothing behind that cannot be undone
         if len(keys) == 1:
-            if record:
-                if key in d:
-                    self._record.append(("replace", path, d[key]))
-                else:
-                    self._record.append(("insert", path, None))
+            if key in d:
+                entry = ("replace", path, d[key])
+            else:
+                entry = ("insert", path, None)
             d[key] = value
+            if record:
+                self._record.append(entry)
         else:
             if key not in d:
+                d[key] = {}
                 if record:
                     self._record.append(("insert", path, None))
-                d[key] = {}
                 # No need to record subsequent operations after an insert
                 record = False
             self._assign(keys[1:], value, d[key], path, record=record)
